@@ -131,12 +131,18 @@ ASSUMPTIONS = [
     '(preceded by an odd number of backslashes) is evaluated too and reported as known finding F13',
 ]
 RULE = ('payloads = 1-6 fragments drawn from control/markup/quote/encoded-word specials, random code points of every '
-        'plane and ASCII words; each payload is placed in one sink (response header value/name/bytes value, echo of a '
-        'request header incl. RFC 2047 form, cookie value/attribute, session cookie path via path_header, status '
-        'reason, HTTPRedirect URL(s), trailing-slash redirect query, Host-derived redirect, HTTPError message/reason, '
-        '404 path, tools.proxy base from X-Forwarded-Host, failing custom error page, request line, Referer, User-Agent, login) under HTTP/1.0 or 1.1, plus unit-level drives of the '
-        'same payload; non-trivial = payload contains a control, markup, quote, backslash or non-ASCII character; '
-        'distinct = distinct (sink, payload, protocol)')
+        'plane and ASCII words; each payload is placed in one of 44 sinks (response header value/name/bytes value, echo of a '
+        'request header, cookie value/name/attribute, session cookie path via path_header and name/domain/path/flags via '
+        'sessions.init, status reason, HTTPRedirect URL(s) x every 3xx, trailing-slash redirects (missing and extra) with the '
+        'query, Host-derived redirect, tools.proxy X-Forwarded-Host/-For/-Proto/-Ssl, tools.response_headers, tools.allow, '
+        'tools.autovary, Content-Disposition of serve_file x Range, staticdir x Range, auth_basic realm and login, HTTPError '
+        'message/reason (tracebacks off/on, header set before the error), unexpected exception with tracebacks on, 404 by path '
+        'and by NotFound, undecodable RFC 2047 word under a client-chosen header name, Cookie request header, custom error_page '
+        'template / working callable (str, bytes, iterator, wrong type) / failing callable, request line, Referer, User-Agent, '
+        'Host, login) under HTTP/1.0 or 1.1; request-header payloads travel raw, as b-word, as q-word (utf-8, iso-8859-1) or as '
+        'an undecodable word; log-related sinks also under custom access_log_format strings (atoms o, i, z); response.stream; '
+        'plus unit-level drives of the same payload through 18 units; non-trivial = payload contains a control, markup, quote, '
+        'backslash or non-ASCII character; distinct = distinct (sink, payload, protocol)')
 
 CTL = set(range(32)) | {127}
 
@@ -692,7 +698,10 @@ def run_wsgi(case):
         res.close()
     obs['status'], obs['headers'], obs['body'] = out.get('status'), out.get('headers'), body
     obs['log'] = list(A['cap'].records)
-    obs['bare'] = body.startswith(b'Unrecoverable error in the server.')
+    # the last-resort response of the trapper (bare_error): recognised by its shape, not by its wording
+    hs = obs['headers'] or []
+    obs['bare'] = ((obs['status'] or '').startswith('500') and [n for n, _ in hs] == ['Content-Type', 'Content-Length']
+                   and hs[0][1] == 'text/plain')
     obs['atoms']['s'] = (obs['status'] or '').split(' ', 1)[0]
     # access() reads response.headers (bare_error replaces header_list only); a falsy value (0) is logged as '-'
     b = obs.pop('raw_cl') or '-'
@@ -827,6 +836,15 @@ def shown_traceback(body):
     return text_after(pg, lambda t: t[1] == 'pre')
 
 
+def shown_message(body):
+    """The text of the page's first <p> element as a browser would show it (None: no such element)."""
+    try:
+        pg = parse_page(body.rstrip(b' '))
+    except Exception:
+        return None
+    return text_after(pg, lambda t: t[1] == 'p')
+
+
 def custom_template_for(case, st):
     """The configured custom template that get_error_page fills for this case (None: the built-in one)."""
     if case['sink'] != 'errtpl':
@@ -836,7 +854,16 @@ def custom_template_for(case, st):
     return CUSTOM_TEMPLATE_DEFAULT
 
 
-def oracle_error_page(body, status_text, message, traceback_text=None, traceback_has=None):
+def under_escaped(text, shown):
+    """`text` was to be shown inside `shown` (the page text as a browser renders it), in whatever wording or
+    notation the code chose around it.  True when what is shown is `text` with its character references
+    RESOLVED (`&lt;` rendered as `<`) and not `text` itself: the sign of text put into the page unescaped that
+    the tag skeleton cannot show."""
+    resolved = html.unescape(text)
+    return text not in shown and resolved != text and resolved in shown
+
+
+def oracle_error_page(body, status_text, message, traceback_text=None, traceback_has=None, message_has=None):
     """The error page shows status/message/traceback only escaped: parsing the page gives the
     built-in tag skeleton and the texts come back verbatim."""
     bad = []
@@ -856,6 +883,11 @@ def oracle_error_page(body, status_text, message, traceback_text=None, traceback
         if (got or '') != message:
             bad.append(('error page message %r does not read back as %r' % (got, message),
                         'error_page_text_not_escaped'))
+    if message_has:
+        got = text_after(pg, lambda t: t[1] == 'p') or ''
+        if under_escaped(message_has, got):
+            bad.append(('error page message %r shows %r with its character references resolved: it was inserted '
+                        'without escaping' % (got, message_has), 'error_page_text_not_escaped'))
     if status_text is not None:
         got = text_after(pg, lambda t: t[1] == 'h2')
         if (got or '') != status_text:
@@ -870,9 +902,10 @@ def oracle_error_page(body, status_text, message, traceback_text=None, traceback
         # a traceback is shown and the exception text in it is request-derived: it reads back verbatim
         # (how the traceback is laid out around it is not the property's business)
         got = text_after(pg, lambda t: t[1] == 'pre') or ''
-        if 'Traceback' in got and traceback_has not in got:
-            bad.append(('the exception text %r does not read back verbatim from the traceback shown in the error '
-                        'page (%r)' % (traceback_has, got[-200:]), 'error_page_text_not_escaped'))
+        if under_escaped(traceback_has, got):
+            bad.append(('the traceback shown in the error page (%r) holds the exception text %r with its character '
+                        'references resolved: it was inserted without escaping' % (got[-200:], traceback_has),
+                        'error_page_text_not_escaped'))
     return bad
 
 
@@ -1075,7 +1108,8 @@ def check_wsgi(ctx, case, obs, model_q):
             if case['sink'] == 'tb_exc' and st == 500 and not has_surrogate(case['payload']):
                 # the traceback shown ends with the exception line; its text is request-derived
                 tbtext = case['payload']
-            bad += oracle_error_page(obs['body'].rstrip(b' '), obs['src_status'], msg, traceback_has=tbtext)
+            bad += oracle_error_page(obs['body'].rstrip(b' '), obs['src_status'], msg, traceback_has=tbtext,
+                                     message_has=expected_in_message(case, obs))
     ctx.count('page:%s' % page_kind)
     # log
     ctx.count('log_records:%d' % len(obs['log']))
@@ -1109,7 +1143,10 @@ def check_wsgi(ctx, case, obs, model_q):
         exp.append(None)
     model_q.append((None, pairs, ('hend', len(exp)), cj))
     msg = expected_message(case, obs) if page_kind in ('error', 'error_custom_template') else None
-    if page_kind == 'error' and msg is not None:
+    if page_kind == 'error' and msg is None:
+        # the message is the code's own wording around request data: read it back from the page like the traceback
+        msg = shown_message(obs['body'])
+    if page_kind == 'error' and msg is not None and modelable(msg):
         # the traceback text is read back from the page itself (parsed, i.e. unescaped): the model must turn it
         # into exactly the bytes that were sent, which it only does if the code escaped it the way the model does
         tb = shown_traceback(obs['body'])
@@ -1162,13 +1199,22 @@ def expected_message(case, obs):
         return default
     if sink == 'errreason':
         return default
+    return None
+
+
+def expected_in_message(case, obs):
+    """Request-derived text the error page's message is built around (the wording around it is the code's own
+    and not compared): it has to read back verbatim somewhere in the message.  None = nothing known."""
+    sink = case['sink']
+    if has_surrogate(case['payload']) or not (obs['status'] or '')[:3].isdigit():
+        return None
+    code = int(obs['status'][:3])
     if sink == 'nf_raise' and code == 404:
-        return "The path '%s' was not found." % case['payload'] if case['payload'] else None
+        return case['payload'] or None
     if sink == 'nf_path' and code == 404:
         a = obs['atoms']['r']
         # request_line = 'GET <path> HTTP/1.x' with the path as the application saw it
-        path = a[4:a.rindex(' ')]
-        return "The path '%s' was not found." % path
+        return a[4:a.rindex(' ')]
     return None
 
 
@@ -1655,10 +1701,44 @@ def run(ctx):
                                                'LogManager.access; those containing a control, markup, quote or '
                                                'non-ASCII octet also through get_error_page and '
                                                'HTTPRedirect.set_response: %d unit runs' % ex2)
+    observe_beyond_statement(ctx)
     missed = c12_cov.report(cov_extra)
     if missed is not None:
         ctx.extra['anchored_lines_not_executed'] = missed
         ctx.extra['anchored_lines_total'] = len(c12_cov.all_lines())
+
+
+def observe_beyond_statement(ctx):
+    """Measured on every run, never a verdict: places where request-derived text changes the STRUCTURE of what is
+    sent without any clause of the statement being violated (no control character, Latin-1 only, built-in error
+    and redirect pages untouched).  Recorded so that the reader of the evidence sees where the property ends."""
+    obs = {}
+    try:
+        o = run_wsgi({'kind': 'wsgi', 'sink': 'sesspath', 'payload': '/x; Domain=evil.example; Max-Age=0',
+                      'proto': 'HTTP/1.1', 'via': 'raw'})
+        v = [b for a, b in o['headers'] if a == 'Set-Cookie']
+        obs['session cookie Path taken from the path_header request header is written unquoted: the client adds '
+            'cookie attributes'] = bool(v and 'Domain=evil.example' in v[0])
+    except Exception as e:
+        obs['session cookie probe'] = 'raised %s' % type(e).__name__
+    try:
+        o = run_wsgi({'kind': 'wsgi', 'sink': 'cdisp', 'payload': 'a"; x="b', 'proto': 'HTTP/1.0', 'disp': 'attachment'})
+        v = [b for a, b in o['headers'] if a == 'Content-Disposition']
+        obs['Content-Disposition filename="..." does not escape a double quote of the file name'] = \
+            bool(v and v[0] == 'attachment; filename="a"; x="b"')
+    except Exception as e:
+        obs['content-disposition probe'] = 'raised %s' % type(e).__name__
+    try:
+        from cherrypy.lib import cptools
+        page = cptools.SessionAuth().login_screen(from_page='x"><script>alert(1)</script>', username='u"x="',
+                                                  error_msg='')
+        obs['tools.session_auth login screen (not an error or redirect page) shows from_page (the requested URL) '
+            'and username unescaped'] = b'<script>alert(1)</script>' in page
+    except Exception as e:
+        obs['login screen probe'] = 'raised %s' % type(e).__name__
+    obs['error log'] = ('the statement speaks of access-log entries only; cherrypy.log(traceback=True) entries are '
+                        'multi-line by nature and are not evaluated')
+    ctx.extra['observations_beyond_statement'] = obs
 
 
 def search(ctx, around=None):
